@@ -363,6 +363,14 @@ def check(ctx: Ctx):
     check_kernel_spherical(ctx)
     check_kernel_diffuse(ctx)
     check_merge_dispatch(ctx)
+    from ..rules import support, nonetest
+    from .c08 import _width_setter
+
+    support.check_field_types(ctx)
+    # the merged width is the mean of the operands' *stored* widths: the setter must store 0 as 0
+    nonetest.check(ctx, _width_setter(ctx.model), "value", "the interface width")
+    ctx.expect("LAYOUT", 3)
+    ctx.expect("NONETEST", 1)
     table = c12.formulas(ctx)
     c12.identities(ctx, table)
     ctx.expect("TERM", 4)
